@@ -6,17 +6,18 @@ LEVEL = 'exploration'
 RULE = ('Less(a,b) and IncreaseSum(a,b) for ALL values of every ordered pair of types from {int8,uint8,int16,uint16} (16x16-bit '
         'pairs, 4 x 2^32 value pairs, only in the thorough tier); for every ordered pair of the 8 types int8..uint64 all pairs from '
         'a boundary-dense value set per type (min, min+1, min+2, -3..3, max-2..max, max/2-1..max/2+1, min/2, +-2^k-1..+-2^k+1 for k in '
-        '{7,8,15,16,31,32,62,63}) through Less, IncreaseSum, NaturalSum<S> and SetToNaturalSumOrMax<S> for all 8 result types S; '
-        'for every ordered triple of types 3-argument NaturalSum/SetToNaturalSumOrMax over the small boundary set with 4 result '
-        'types; reference = __int128 arithmetic; non-trivial = comparisons of operands with different signs, sums that '
-        'overflow the result type, sums with a negative argument, and clamped stores')
+        '{7,8,15,16,31,32,62,63}) through Less, IncreaseSum, and NaturalSum<S>/SetToNaturalSumOrMax<S> for S in {uint8,int16,int32,'
+        'uint32,int64,uint64}; for every ordered triple of argument types from {int8,uint16,int32,int64,uint64} the 3-argument '
+        'NaturalSum/SetToNaturalSumOrMax over the small boundary set with 3 result types; reference = __int128 arithmetic; '
+        'non-trivial = comparisons of operands with different signs, sums that overflow the result type, sums with a negative '
+        'argument, and clamped stores')
 ASSUME = ['src/SquidMath.h of the scratch copy of the current tree instantiated in the harness with -fsanitize=address,undefined '
           '-fno-sanitize-recover (signed overflow or a bad conversion inside the helpers aborts the case)',
           'IncreaseSum(s,t) is called with the first argument of the result type, as its only in-tree callers do']
 
 
 def _build(ctx):
-    return seq.build(ctx, 'tests/testMath', ['C52_math.cc'], ubsan=True)
+    return seq.build(ctx, 'tests/testMath', ['C52_math.cc', 'C52_part2.cc', 'C52_part3.cc'], ubsan=True)
 
 
 def _result(ctx, m):
